@@ -9,7 +9,7 @@ import z3
 
 from symx import sym
 from symx.arr import NpProxy, SymArray, symarray
-from symx.explore import Explorer, model_value
+from symx.explore import Explorer, Inconclusive, model_value
 from symx.harness import frac_json, from_frac_json, patched, src_info, zand, zor, zs
 from symx.sym import HarnessError, Sym
 
@@ -178,6 +178,19 @@ def update_task(space, ctype, N, m, scale_kind, tier):
         claims.append(z3.BoolVal(bool(untouched)))
         mdl = ctx.prove("updated regions = prediction scaled; others untouched", zand(claims))
         if mdl is not None:
+            # steer to a well-scaled instance (a model with huge means or a vanishing scale hides a small absolute
+            # discrepancy below the replay's relative tolerance)
+            wellscaled = []
+            for v in np.asarray(mus, dtype=object).ravel():
+                wellscaled += [sym.to_z3(v) >= -1, sym.to_z3(v) <= 1]
+            for v in np.asarray(sc, dtype=object).ravel():
+                wellscaled += [sym.to_z3(v) >= 1, sym.to_z3(v) <= 2]
+            for v in np.asarray(covs, dtype=object).ravel():
+                wellscaled += [sym.to_z3(v) <= 1, sym.to_z3(v) >= -1]
+            try:
+                mdl = ctx.satisfiable([z3.Not(zand(claims))] + wellscaled, timeout_ms=30000) or mdl
+            except Inconclusive:
+                pass
             ex.candidate("updated regions = prediction scaled; others untouched",
                          _case(mdl, state, space, ctype, Nn, m, scale_kind, mus, covs, sc),
                          {"space": space, "ctype": ctype, "scale": scale_kind, "indices": str(idxs)})
